@@ -140,6 +140,15 @@ func (ex *Exec) checkPost(fr *Frame, st *State, vs []*Val, k int, pos string) {
 		return
 	}
 	env := map[string]*Val{}
+	// in postconditions parameter names denote the values at entry (as the caller sees them)
+	for i, p := range fr.fn.Params {
+		if i < len(fr.args) {
+			env[p.Name()] = fr.args[i]
+		}
+	}
+	for k, v := range ex.paramEnv(fr) {
+		env[k] = v
+	}
 	rn := resultNames(fr.fn.Signature, ct)
 	for i, v := range vs {
 		if i < len(rn) {
